@@ -28,6 +28,11 @@ type c09Config struct {
 	Prefill    int   `json:"prefill"`
 	StayWeight int   `json:"stay_weight"`
 	Weights    []int `json:"op_weights"`
+	// PanicAt > 0: the PanicAt-th invocation of a user-supplied function (size
+	// function or eviction callback) panics; the calling thread recovers and
+	// carries on with its next call (fault injection, see the oracle's
+	// relaxation).
+	PanicAt int `json:"callback_panics_at"`
 }
 
 var c09Stay = []int{0, 1, 3, 10, 50}
@@ -56,6 +61,9 @@ func drawC09Config(ch chooser.Chooser) c09Config {
 	}
 	if c.Weights[OpClear] > 1 {
 		c.Weights[OpClear] = 1
+	}
+	if ch.Draw(8, "cbpanic?") == 7 {
+		c.PanicAt = 1 + ch.Draw(12, "cbpanicat")
 	}
 	return c
 }
@@ -221,6 +229,8 @@ func runC09(ch chooser.Chooser, st *Stats, mk cacheMaker) *Outcome {
 		pan[t] = make([]string, len(ops[t]))
 	}
 	env.cur = sched.CurrentTid
+	// The fault is armed only for the concurrent phase (the prefill is plain).
+	env.panicAt = int64(cfg.PanicAt)
 	bodies := make([]func(int), cfg.Threads)
 	for t := range bodies {
 		bodies[t] = func(tid int) {
@@ -235,7 +245,7 @@ func runC09(ch chooser.Chooser, st *Stats, mk cacheMaker) *Outcome {
 					r = 1
 				}
 				sched.Yield(sched.KReturn, int64(i), r<<62|int64(ob.V)<<20^ob.N<<8^int64(len(ob.CBs)))
-				if p != "" {
+				if p != "" && p != injectedPanicText {
 					return
 				}
 			}
@@ -298,6 +308,11 @@ func runC09(ch chooser.Chooser, st *Stats, mk cacheMaker) *Outcome {
 	st.Inc("sched:context_switches", int64(res.Switches))
 	st.Inc("sched:steps_with_a_blocked_thread", int64(res.Contended))
 
+	faulted := env.faultFired()
+	env.panicAt = 0
+	if faulted {
+		st.Inc("fault:user_callback_panicked", 1)
+	}
 	// Oracle 5: every call returns.
 	if res.Deadlock {
 		return fail("deadlock", "no simulated thread can run and some have not finished: "+res.DeadInfo)
@@ -308,7 +323,7 @@ func runC09(ch chooser.Chooser, st *Stats, mk cacheMaker) *Outcome {
 	for _, p := range res.Panics {
 		return fail("panic", fmt.Sprintf("thread %d panicked outside a call: %s", p.Tid, p.Value))
 	}
-	if firstPanic != "" {
+	if firstPanic != "" && !faulted {
 		return fail("panic", firstPanic)
 	}
 	// Oracle 1: no data race.
@@ -316,6 +331,15 @@ func runC09(ch chooser.Chooser, st *Stats, mk cacheMaker) *Outcome {
 		return fail("data-race", fmt.Sprintf("%d race detector report(s) during the run\n%s", res.Races, raceLogTail()))
 	}
 
+	if faulted {
+		// A user function panicked in the middle of a call. The cache promises
+		// nothing about its contents after that (its bookkeeping may be
+		// half-updated, later calls may even panic), so results are not judged
+		// in this run - relaxed narrowly: the lock must still have been released
+		// (no thread may hang: checked above) and nothing may race (checked
+		// above). Runs without this fault are judged in full.
+		return out
+	}
 	// Final read-back on this goroutine (ordered after the join).
 	stamp = int64(2*res.Steps + 10)
 	readback := []Op{{Kind: OpLen}, {Kind: OpSize}}
@@ -398,6 +422,8 @@ func runC09(ch chooser.Chooser, st *Stats, mk cacheMaker) *Outcome {
 	}
 	return out
 }
+
+var injectedPanicText = fmt.Sprint(injectedPanic{})
 
 // threadSafely is safely for code running on a simulated thread: the
 // scheduler's kill signal must pass through.
@@ -485,6 +511,6 @@ func init() {
 			"distinct = distinct fingerprints of the whole event log (schedule, calls, results)",
 		Real:           []string{"cache.Cache", "cache.lruStore", "heapq.Queue", "sync.Mutex (inside simsync.Mutex, so the race detector sees the true acquire/release edges)"},
 		Simulated:      []string{"goroutine scheduling (seeded scheduler, one runnable thread at a time, hand-off by raw pipe syscalls invisible to the race detector)", "blocking on the cache mutex (simsync.Mutex)"},
-		RequiredProbes: []string{"probe:overlapping_calls", "probe:lock_contention_seen", "porcupine:linearizable"},
+		RequiredProbes: []string{"probe:overlapping_calls", "probe:lock_contention_seen", "porcupine:linearizable", "fault:user_callback_panicked"},
 	})
 }
